@@ -520,3 +520,36 @@ def c17_9(ctx, r):
                 "every valid configuration is accepted")
     if n != 1:
         raise AnalysisError("C17.9", f"{n} calls of check_job_estimated_run_minutes in run_checks")
+
+
+@rule(P, "C17.10", "T4", "`jade submit-jobs` lets the rejection out: no handler around run_submit_jobs() swallows InvalidConfiguration", min_obligations=1)
+def c17_10(ctx, r):
+    """`rejected with an error`: the checks raise InvalidConfiguration inside JobSubmitter.run_submit_jobs().  The CLI wraps that call in
+    try/except to log the traceback; the handler must re-raise (or exit non-zero).  If it only logs, an invalid configuration is reported in the
+    log file and `jade submit-jobs` exits 0 - scripts and pipelines built on the exit status go on as if the submission existed."""
+    from ..lib import swallowing_handlers
+
+    fn = ctx.fn("submit_jobs.submit_jobs", "C17.10")
+    for s in ctx.some_sites(fn, "C17.10", short="JobSubmitter.run_submit_jobs"):
+        hs = swallowing_handlers(ctx, fn, s.node)
+        what = ", ".join(sorted({ctx.src(h.type) if h.type is not None else "everything" for h in hs}))
+        r.check(not hs, "a failure of run_submit_jobs() leaves the command as a failure", key_of(fn, "rejection swallowed by the CLI"), s.loc,
+                f"submit_jobs catches {what} around JobSubmitter.run_submit_jobs() and does not re-raise: an invalid configuration is logged and the command exits with status 0", "is rejected with an error")
+
+
+@rule(P, "C17.11", "T9", "per-job files: the loader looks for exactly the name the writer used (<job name> + \".json\", the name taken whole)", min_obligations=2)
+def c17_11(ctx, r):
+    """The execution format stores each job in <jobs_directory>/<job.name>.json (serialize_jobs, used by serialize_for_execution) and loads it back by name
+    (_get_job_by_name).  Job names may contain dots (`model.v2`, `scale_1.5`).  Appending ".json" to the whole name agrees with the writer;
+    pathlib's with_suffix() / os.path.splitext() *replace* what follows the last dot - `scale_1.5` is then looked up as `scale_1.json`, which
+    does not exist or, worse, is another job's file."""
+    rd = ctx.fn(f"{JC}._get_job_by_name", "C17.11")
+    wr = ctx.fn(f"{JC}.serialize_jobs", "C17.11")
+    for fn, role in ((rd, "loader"), (wr, "writer")):
+        bad = [c for c in iter_own(fn.node) if isinstance(c, ast.Call) and isinstance(c.func, ast.Attribute) and c.func.attr in ("with_suffix", "with_name", "with_stem", "splitext", "stem")]
+        has = any(isinstance(c, ast.Constant) and isinstance(c.value, str) and c.value.endswith(".json") for c in ast.walk(fn.node))
+        if not has:
+            raise AnalysisError("C17.11", f"{fn.short} no longer mentions a .json file name")
+        r.check(not bad, f"the {role} appends .json to the whole job name", key_of(fn, "per-job file name derived by suffix replacement"), fn.loc(bad[0]) if bad else fn.loc(fn.node),
+                f"{fn.short} builds the per-job file name with `{ctx.src(bad[0])[:70] if bad else ''}`: what follows the last dot of the job name is *replaced*, so a job called `scale_1.5` is read from (or written to) "
+                "`scale_1.json` - the execution format no longer loads back the jobs that were written", "loading it back yields the same jobs ... with the same names")
